@@ -42,7 +42,7 @@ def hdrsets(setters, vals):
 
 
 SINKFAULTS = '{[kind |-> "sink", slot |-> 0, when |-> ""], [kind |-> "short", slot |-> 0, when |-> ""]}'
-PRODFAULTS = '{[kind |-> "producer", slot |-> s, when |-> w] : s \\in 1..4, w \\in {"before", "after"}}'
+PRODFAULTS = '{[kind |-> "producer", slot |-> s, when |-> w] : s \\in 1..4, w \\in {"before", "after", "seek", "eof", "eofplain"}}'
 INJ = ["crlf", "crlfcrlf", "lf", "cr", "nul", "ctl", "quotes", "encword", "badutf8", "utf8", "long", "token1000", "blanks", "tabs"]
 SETTERS = ["subject", "gen", "org", "ua", "msgid", "fromname", "toname", "mdnname"]
 NAMECLS = '{"", "utf8", "path", "semi", "crlf", "nul", "quotes", "long", "dotted", "blanks"}'
@@ -61,7 +61,7 @@ STAGES.update({
             ('sink-every-offset', 'MimeBuild', cfg(MAXP='3', MAXE='2', MAXA='2', ENCS='{"qp", "b64", "8bit"}', FAULTS=SINKFAULTS,
                                                     PENCS='{"", "b64"}', FENCS='{"", "8bit"}', CCS='<<"crlf", "utf8", "dots", "size300">>', ROTS='{0, 1}')),
             ('producers', 'MimeBuild', cfg(MAXP='3', MAXE='2', MAXA='2', ENCS='{"qp", "b64", "8bit"}',
-                                           FAULTS='{[kind |-> "producer", slot |-> s, when |-> w] : s \\in 1..7, w \\in {"before", "after"}}',
+                                           FAULTS='{[kind |-> "producer", slot |-> s, when |-> w] : s \\in 1..7, w \\in {"before", "after", "seek", "eof", "eofplain"}}',
                                            FENCS='{"", "8bit"}', CCS='<<"crlf", "utf8", "size300">>')),
         ],
     },
@@ -132,7 +132,10 @@ def facts(begin):
          'no_body': np == 0, 'single_leaf': np + ne + na <= 1,
          'nested_multiparts': (1 if np > 1 else 0) + (1 if ne >= 1 and np + ne > 1 else 0) + (1 if na >= 1 and np + ne + na > 1 else 0) >= 2,
          'fault': (begin.get('fault') or {}).get('kind', 'none')}
+    longish = ('long', 'utf8', 'blanks', 'quotes', 'semi', 'token1000', 'encword')
     for s in p['embeds'] + p['atts']:
+        if s['name'] in longish or s['desc'] in longish:
+            f['long_part_header_value'] = True
         if s['enc'] not in ('', 'b64'):
             f['file_enc_nondefault'] = True
         if s['desc']:
@@ -142,11 +145,16 @@ def facts(begin):
         if s['cid']:
             f['file_cid:' + s['cid']] = True
     for s in p['parts']:
+        if s['desc'] in longish:
+            f['long_part_header_value'] = True
         if s['desc']:
             f['part_desc'] = True
             f['part_desc:' + s['desc']] = True
     for h in p.get('hdrs') or []:
         f['hdr:%s:%s' % (h['setter'], h['val'])] = True
+        f['val:' + h['val']] = True
+    if any(s['cid'] in ('crlf', 'nul', 'ctl', 'lf', 'cr') for s in p['embeds']):
+        f['cid_with_control'] = True
     if len(begin.get('ops') or []) > 1:
         f['rerender'] = True
     return f
@@ -269,6 +277,26 @@ def mut_hdr(evs):
     if i < 0:
         return None
     evs[i]['got'] = evs[i]['got'] + ' x'
+    evs[i]['gotx'] = evs[i]['gotx'] + ' '
+    return evs
+
+
+def mut_fname(evs):
+    i = _find(evs, lambda e: e['ev'] == 'tree')
+    if i < 0:
+        return None
+
+    def file_leaf(n):
+        if not n.get('mp'):
+            return n if n.get('fname') else None
+        for k in n['kids']:
+            r = file_leaf(k)
+            if r:
+                return r
+    lf = file_leaf(evs[i]['tree'])
+    if not lf:
+        return None
+    lf['fname'] = lf['fname'] + '.exe'
     return evs
 
 
@@ -308,6 +336,7 @@ SELFTESTS = {
     'C18': [('bare LF', lambda evs: mut_line(evs, lambda e: e['eol'] == 'crlf', eol='lf'), 'C18_CRLF'),
             ('bare CR', lambda evs: mut_line(evs, lambda e: e['len'] > 0, barecr=True), 'C18_NoBareCR'),
             ('long header line with blanks', lambda evs: mut_line(evs, lambda e: e['name'] == 'subject', len=79, inner=True), 'C18_HeaderLineLength'),
+            ('long part header line with blanks', lambda evs: mut_line(evs, lambda e: e['name'] == 'content-transfer-encoding' and e['n'] > 15, len=79, inner=True), 'C18_PartHeaderLineLength'),
             ('encoded body line of 77', lambda evs: mut_line(evs, lambda e: e['b64'] and e['len'] == 76 and e['name'] == '', len=77), 'C18_EncodedLineLength'),
             ('folded value differs', mut_hdr, 'C18_UnfoldsToValue')],
     'C02': [('duplicated singleton field', mut_dup_field, 'C02_TopFields'),
@@ -315,7 +344,8 @@ SELFTESTS = {
             ('premature end of headers', mut_early_end, 'C02_TopFields'),
             ('line that is neither field nor continuation', lambda evs: mut_line(evs, lambda e: e['name'] == 'subject', name=''), 'C02_HeaderSyntax'),
             ('control character in header', lambda evs: mut_line(evs, lambda e: e['name'] == 'subject', ctl=True), 'C02_NoControlInHeader'),
-            ('decoded value differs', mut_hdr, 'C02_ValueRoundTrip')],
+            ('decoded value differs', mut_hdr, 'C02_ValueRoundTrip'),
+            ('file name differs', mut_fname, 'C02_PartValues')],
     'C01': [('leaf content differs', mut_leaf_differs, 'C01_ContentEqual'),
             ('close-delimiter removed', mut_drop_close, 'C01_AllMultipartsClosed'),
             ('multipart subtype changed', mut_swap_tree, 'C01_Structure'),
